@@ -123,4 +123,187 @@ theorem close_seq (pf : Proto) (hpf : pf.closeWaits = true) (s : Sec) (fl : List
     rw [he]
     exact ⟨⟨by simp, fun _ => hsu rfl, rfl⟩, by simp, by simp [releasesClean], by simp [inuseDelta], by simp, by simp⟩
 
+/-! ### a world of secrets -/
+
+theorem live_append (l : List Sec) (s : Sec) : live (l ++ [s]) = live l + (if s.closed then 0 else 1) := by
+  induction l with
+  | nil => simp [live]
+  | cons a t ih => simp only [List.cons_append, live, ih]; omega
+
+theorem live_set (l : List Sec) (i : Nat) (x old : Sec) (h : l[i]? = some old) :
+    live (l.set i x) = live l - (if old.closed then 0 else 1) + (if x.closed then 0 else 1) := by
+  induction l generalizing i with
+  | nil => simp at h
+  | cons a t ih =>
+    cases i with
+    | zero =>
+      simp only [List.getElem?_cons_zero, Option.some.injEq] at h
+      subst h
+      simp only [List.set_cons_zero, live]; omega
+    | succ n =>
+      simp only [List.getElem?_cons_succ] at h
+      simp only [List.set_cons_succ, live, ih n h]; omega
+
+theorem mem_set_cases {l : List Sec} {i : Nat} {x y : Sec} (h : y ∈ l.set i x) : y = x ∨ y ∈ l := by
+  induction l generalizing i with
+  | nil => simp at h
+  | cons a t ih =>
+    cases i with
+    | zero => simp only [List.set_cons_zero, List.mem_cons] at h; rcases h with h | h <;> simp [h]
+    | succ n =>
+      simp only [List.set_cons_succ, List.mem_cons] at h
+      rcases h with h | h
+      · simp [h]
+      · rcases ih h with h | h <;> simp [h]
+
+structure WorldInv (w : World) : Prop where
+  secs : ∀ s ∈ w.secs, SInv s
+  inuse : w.inuse = live w.secs
+
+def Op.creates : Op → Option (Impl × Bool)
+  | .new i _ => some (i, false)
+  | .rand i _ => some (i, true)
+  | _ => none
+
+/-- the facts of one operation of the world, under any faults: the invariant is kept (in particular
+the in-use accounting), nothing crashes or deadlocks, and no Unlock/Free is issued on secret bytes
+(`clean`; for a creation this needs its failure paths to wipe, `wipes`). -/
+structure StepFacts (w : World) (r : World × Obs) (wipes : Bool) : Prop where
+  inv : WorldInv r.1
+  cfg : r.1.cfg = w.cfg
+  pf : r.1.pf = w.pf
+  noCrash : r.2.res ≠ .crash
+  noDeadlock : r.2.res ≠ .deadlock
+  clean : wipes = true → releasesClean r.2.evs = true
+
+theorem createOp_facts (w : World) (hw : WorldInv w) (impl : Impl) (random : Bool) (len : Nat) (fl : List Bool) :
+    StepFacts w (w.createOp impl random len fl) (w.cfg.wipes impl random) := by
+  unfold World.createOp
+  have hs := createSound_of (create_sound w.cfg impl random w.nextId len fl)
+  have hwp := create_wiped w.cfg impl random w.nextId len fl
+  generalize create w.cfg impl random w.nextId len fl = c at hs hwp ⊢
+  have hclean : w.cfg.wipes impl random = true → releasesClean c.evs = true := by
+    intro h
+    have := (hwp h).2
+    simp only [wipeOkB, Bool.and_eq_true] at this
+    exact this.2
+  cases hsec : c.sec with
+  | some s =>
+    simp only [hsec]
+    have hok : c.res = .ok := by
+      by_cases h : c.res = .ok
+      · exact h
+      · have := hs.fail_sec h; rw [hsec] at this; cases this
+    obtain ⟨s', h1, h2, _, _⟩ := hs.ok_sec hok
+    rw [hsec] at h1; cases h1
+    refine ⟨⟨?_, ?_⟩, rfl, rfl, by simp [hok], by simp [hok], hclean⟩
+    · intro x hx
+      simp only [List.mem_append, List.mem_singleton] at hx
+      rcases hx with hx | hx
+      · exact hw.secs x hx
+      · subst hx; exact SInv.of_idle h2
+    · simp only [live_append, hs.inuse, hok, if_true, hw.inuse, (idle_elim h2).2.1]; simp
+  | none =>
+    simp only [hsec]
+    have hno : c.res ≠ .ok := by
+      intro h; obtain ⟨s', h1, _⟩ := hs.ok_sec h; rw [hsec] at h1; cases h1
+    refine ⟨⟨hw.secs, ?_⟩, rfl, rfl, hs.no_crash.1, hs.no_crash.2.2.1, hclean⟩
+    simp only [hs.inuse, hno, if_false, hw.inuse]; simp
+
+theorem withOp_facts (w : World) (hp1 : w.pf.accessChecksClosing = true) (hw : WorldInv w) (sid nest : Nat) (fl : List Bool) :
+    StepFacts w (w.withOp sid nest fl) true := by
+  unfold World.withOp
+  cases h : w.secs[sid]? with
+  | none => exact ⟨hw, rfl, rfl, by simp, by simp, by simp [releasesClean]⟩
+  | some s =>
+    have hs := hw.secs s (List.mem_of_getElem? h)
+    simp only [withBytes_seq w.pf hp1 nest s fl hs]
+    obtain ⟨i1, i2, i3, i4, i5⟩ := withClosed_inv s fl hs
+    refine ⟨⟨?_, ?_⟩, rfl, rfl, ?_, ?_, fun _ => i4⟩
+    · intro x hx
+      rcases mem_set_cases hx with hx | hx
+      · subst hx; exact i1
+      · exact hw.secs x hx
+    · simp only [live_set _ _ _ _ h, i2, i3, hw.inuse]; omega
+    · rcases i5 with h | h | h <;> simp [h]
+    · rcases i5 with h | h | h <;> simp [h]
+
+theorem readOp_facts (w : World) (hp1 : w.pf.accessChecksClosing = true) (hw : WorldInv w) (rid k : Nat) (fl : List Bool) :
+    StepFacts w (w.readOp rid k fl) true := by
+  unfold World.readOp
+  cases hr : w.readers[rid]? with
+  | none => exact ⟨hw, rfl, rfl, by simp, by simp, by simp [releasesClean]⟩
+  | some p =>
+    obtain ⟨sid, i⟩ := p
+    simp only
+    cases h : w.secs[sid]? with
+    | none => exact ⟨hw, rfl, rfl, by simp, by simp, by simp [releasesClean]⟩
+    | some s =>
+      have hs := hw.secs s (List.mem_of_getElem? h)
+      simp only [withBytes_seq w.pf hp1 0 s fl hs]
+      obtain ⟨i1, i2, i3, i4, i5⟩ := withClosed_inv s fl hs
+      refine ⟨⟨?_, ?_⟩, rfl, rfl, ?_, ?_, fun _ => i4⟩
+      · intro x hx
+        rcases mem_set_cases hx with hx | hx
+        · subst hx; exact i1
+        · exact hw.secs x hx
+      · simp only [live_set _ _ _ _ h, i2, i3, hw.inuse]; omega
+      · rcases i5 with h | h | h <;> simp [h]
+      · rcases i5 with h | h | h <;> simp [h]
+
+theorem closeOp_facts (w : World) (hp2 : w.pf.closeWaits = true) (hw : WorldInv w) (sid : Nat) (fl : List Bool) :
+    StepFacts w (w.closeOp sid fl) true := by
+  unfold World.closeOp
+  cases h : w.secs[sid]? with
+  | none => exact ⟨hw, rfl, rfl, by simp, by simp, by simp [releasesClean]⟩
+  | some s =>
+    have hs := hw.secs s (List.mem_of_getElem? h)
+    obtain ⟨i1, i2, i3, i4, i5, _⟩ := close_seq w.pf hp2 s fl hs
+    refine ⟨⟨?_, ?_⟩, rfl, rfl, ?_, ?_, fun _ => i3⟩
+    · intro x hx
+      rcases mem_set_cases hx with hx | hx
+      · subst hx; exact i1
+      · exact hw.secs x hx
+    · simp only [live_set _ _ _ _ h, i4, hw.inuse]
+      cases hc : s.closed
+      · cases hc' : (close w.pf s fl).sec.closed <;> simp <;> omega
+      · simp [i5 hc]
+    · rcases i2 with h | h | h <;> simp [h]
+    · rcases i2 with h | h | h <;> simp [h]
+
+theorem WorldInv.init (cfg : Cfg) : WorldInv { cfg := cfg } :=
+  ⟨(by intro s hs; cases hs), (by simp [live])⟩
+
+/-- without faults `close()` / `Destroy()` of a mapped page completes. -/
+theorem closeInner_nil (s : Sec) (hm : s.page.mapped = true) : (closeInner s []).res = .ok := by
+  obtain ⟨impl, id, len, born, ⟨mapped, locked, dd, prot, content, guards⟩, closing, closed, counter⟩ := s
+  simp only at hm; subst hm
+  cases impl <;> simp [closeInner, pmClose, mgClose, mgDestroy, Run.call, Run.wipe, Page.writable, applyPrim, Prim.alwaysFails]
+
+/-- does this operation's creation function wipe on its failure paths (`true` for non-creations). -/
+def Op.wipes (cfg : Cfg) : Op → Bool
+  | .new i _ => cfg.wipes i false
+  | .rand i _ => cfg.wipes i true
+  | _ => true
+
+theorem step_facts (w : World) (hp1 : w.pf.accessChecksClosing = true) (hp2 : w.pf.closeWaits = true)
+    (hw : WorldInv w) (op : Op) (fl : List Bool) : StepFacts w (w.step op fl) (op.wipes w.cfg) := by
+  cases op with
+  | new impl len => exact createOp_facts w hw impl false len fl
+  | rand impl len => exact createOp_facts w hw impl true len fl
+  | withB sid nest => exact withOp_facts w hp1 hw sid nest fl
+  | withF sid nest => exact withOp_facts w hp1 hw sid nest fl
+  | newReader sid =>
+    simp only [World.step]
+    cases h : w.secs[sid]? with
+    | none => exact ⟨hw, rfl, rfl, by simp, by simp, by simp [releasesClean]⟩
+    | some s => exact ⟨⟨hw.secs, hw.inuse⟩, rfl, rfl, by simp, by simp, by simp [releasesClean]⟩
+  | read rid k => exact readOp_facts w hp1 hw rid k fl
+  | close sid => exact closeOp_facts w hp2 hw sid fl
+  | isClosed sid =>
+    simp only [World.step]
+    cases h : w.secs[sid]? with
+    | none => exact ⟨hw, rfl, rfl, by simp, by simp, by simp [releasesClean]⟩
+    | some s => exact ⟨hw, rfl, rfl, by simp, by simp, by simp [releasesClean]⟩
+
 end AsherahVerif.SecMem
